@@ -17,7 +17,7 @@ PROPERTY = 'C20'
 RULE = ('Depth-1 grids: every combination of (feed vectors over the dyadic alphabet {0, 0.375, 1, 2.5} with 1-6 non-zero chemicals) x (helper '
         'arguments: split scalars/vectors over {0, 0.25, 1}; K in {1e-3, 0.5, 1, 2, 1e3}^k with forced top / bottom chemicals and strict; moisture in '
         '{0.05, 0.5, 0.95} x sufficient / insufficient water x strict x ID form x single / multi-phase streams; VLE specifications; LLE efficiencies; phase '
-        'sets; 2x2 and 3x3 invertible inlet matrices x both balance modes).  History layers: the same helpers applied 2-3 times in a row to the SAME outlet '
+        'sets; 2x2 and 3x3 invertible inlet matrices x every order of chemical_IDs x 0-2 constant inlets x both balance modes).  History layers: the same helpers applied 2-3 times in a row to the SAME outlet '
         'objects (and to their own outlets as inlets).  A case is non-trivial when material really moved: >= 2 inlets overlapping on a chemical, both '
         'outlets non-empty, water transferred, two phases returned, >= 2 non-empty phases split, all scale factors != 1.')
 ASSUMPTIONS = [
@@ -704,7 +704,7 @@ MATS = {2: [((1, 0), (0, 1)), ((1, 1), (0, 1)), ((2.5, 1), (0.375, 1)), ((1, 0.3
 XS = {2: [(0.5, 3.0), (1.0, 1.0), (3.0, 0.5), (2.0, 2.0)], 3: [(0.5, 1.0, 3.0), (3.0, 0.5, 2.0), (2.0, 2.0, 2.0)]}
 
 class MatBal(Base):
-    """config = (size, matrix index, which chemicals carry the matrix); action = ('mb', x index, constant-inlet flag, n outlets, balance, is_exact)
+    """config = (size, matrix index, which chemicals carry the matrix); action = ('mb', x index, number of constant inlets 0-2, n outlets, balance, is_exact, permutation index of chemical_IDs)
     variable inlet j holds MATS[j] on the chosen chemicals (plus a passenger chemical that is not balanced)"""
     def _configs(self, tier):
         return [(n, m, off, pas) for n in (2, 3) for m in range(len(MATS[n])) for off in (0, 1) for pas in (0, 1)]
@@ -727,14 +727,18 @@ class MatBal(Base):
     def actions(self, st):
         n = st.n
         # a passenger chemical that the outlets do not hold makes a *composition* target unreachable, so it is used in flow mode only
-        return [('mb', xi, ci, no, bal, ex) for xi in range(len(XS[n])) for ci in (0, 1) for no in (1, 2)
-                for bal in (('flow',) if st.pas else ('flow', 'composition')) for ex in (True, False)]
+        # chemical_IDs is passed in EVERY order (index of the permutation of the chosen chemicals; 0 = property-package order), with 0 / 1 / 2 constant inlets
+        nperm = len(list(itertools.permutations(range(n))))
+        return [('mb', xi, ci, no, bal, ex, pi) for xi in range(len(XS[n])) for ci in (0, 1, 2) for no in (1, 2)
+                for bal in (('flow',) if st.pas else ('flow', 'composition')) for ex in (True, False) for pi in range(nperm)]
 
     def _step(self, st, a):
         tmo = fx.tmo(); sep = tmo.separations
-        _, xi, ci, no, bal, ex = a
+        _, xi, ci, no, bal, ex, *rest = a
+        pi = rest[0] if rest else 0                      # (witnesses recorded before the ID order was enumerated have no 7th field)
         n = st.n; idx = st.idx
         IDs = tuple(PK6[i] for i in idx)
+        IDs_given = tuple(IDs[k] for k in list(itertools.permutations(range(n)))[pi])
         var = [st.S[f'v{j}'] for j in range(n)]
         v0 = [arr(s) for s in var]
         x = XS[n][xi]
@@ -744,6 +748,11 @@ class MatBal(Base):
             c = tmo.Stream(None, thermo=st.th)
             c.imol[IDs[0]] = 1; c.imol[IDs[-1]] = 0.375
             cin = [c]; g = arr(c)
+            if ci == 2:
+                c2 = tmo.Stream(None, thermo=st.th)
+                c2.imol[IDs[1]] = 2.5
+                if n == 3: c2.imol[IDs[0]] = 0.375
+                cin.append(c2); g = g + arr(c2)
         target = sum(xj * vj for xj, vj in zip(x, v0)) + g
         # the balanced chemicals of the outlets follow the target; split over `no` outlet streams
         outs = []
@@ -754,8 +763,8 @@ class MatBal(Base):
                 if val: o.imol[PK6[i]] = val
             outs.append(o)
         out_tot = sum(arr(o) for o in outs)
-        match = dict(balance=bal, is_exact=ex, constant_inlets=bool(ci))
-        r = call('material_balance', lambda: sep.material_balance(IDs, var, cin, outs, is_exact=ex, balance=bal), match)
+        match = dict(balance=bal, is_exact=ex, constant_inlets=bool(ci), ids_in_package_order=(pi == 0))
+        r = call('material_balance', lambda: sep.material_balance(IDs_given, var, cin, outs, is_exact=ex, balance=bal), match)
         if isinstance(r, tuple): raise Rejected('material_balance:InfeasibleRegion', cut=True)
         v1 = [arr(s) for s in var]
         inl = sum(v1) + g
@@ -773,7 +782,7 @@ class MatBal(Base):
         if bal == 'flow':
             res = (inl - out_tot)[idx]
             if not close(res, np.zeros(n), rtol=1e-9, scale=max(1.0, float(out_tot.max()))):
-                raise Violation('material-balance', f'flow balance: inlets - outlets = {res} on {IDs} (factors {factors}, expected {x})', match=match, detail=det,
+                raise Violation('material-balance', f'flow balance: inlets - outlets = {res} on {IDs} (chemical_IDs given as {IDs_given}, {len(cin)} constant inlets; factors {factors}, expected {x})', match=match, detail=det,
                                 residual=float(np.max(np.abs(res))))
         else:
             zi = inl / inl.sum(); zo = out_tot / out_tot.sum()
